@@ -1,6 +1,6 @@
 (* C20 runner: decodes a case, runs model and spec. Executable only. *)
 From Coq Require Import List ZArith QArith Bool.
-From Gst Require Import lib.Sx lib.QAux C20.Model C20.Spec.
+From Gst Require Import lib.Sx lib.QAux C20.Model C20.Spec C20.HullModel.
 Import ListNotations.
 
 Definition asPt (s : sx) : option pt :=
@@ -75,6 +75,13 @@ Definition run (c : sx) : sx :=
                                    || (flag_period && (any_boundary pes (shiftx (-(360#1)) (s_xy s))
                                                        || any_boundary pes (shiftx (360#1) (s_xy s)))))) db]
       | _, _, _, _, _ => sx_error 1
+      end
+  | L [I 5%Z; p; h] =>   (* certificate check of a convex hull: data points, hull vertices as returned by the implementation (ranks of data points) *)
+      match asListOf asPt p, asListOf asNat h with
+      | Some pts, Some idx =>
+          let hull := map (fun i => nth i pts (0, 0)) idx in
+          L [ofB (hull_ok pts hull); ofB (forallb (fun i => Nat.ltb i (length pts)) idx)]
+      | _, _ => sx_error 1
       end
   | _ => sx_error 0
   end.
